@@ -29,11 +29,12 @@ def ofOut : Out → Sexp
   | .failed k => tag "failed" [ofNat k]
 
 def obs? : Sexp → Option Obs
-  | .list [a, b, c, d, e] => do
-      some { ws := ← bool? a, ss := ← bool? b, ff := ← opt? bool? c, leafStop := ← list? bool? d, leafFF := ← list? bool? e }
+  | .list [a, b, c, d, e, f] => do
+      some { ws := ← bool? a, ss := ← bool? b, ff := ← opt? bool? c, leafStop := ← list? bool? d, leafFF := ← list? bool? e,
+             cb := ← list? nat? f }
   | _ => none
 def ofObs (o : Obs) : Sexp :=
-  .list [ofBool o.ws, ofBool o.ss, ofOpt ofBool o.ff, ofList ofBool o.leafStop, ofList ofBool o.leafFF]
+  .list [ofBool o.ws, ofBool o.ss, ofOpt ofBool o.ff, ofList ofBool o.leafStop, ofList ofBool o.leafFF, ofList ofNat o.cb]
 
 def trace? : Sexp → Option Trace
   | .list [a, b, c, d, e] => do
